@@ -314,6 +314,11 @@ func prodTemplates() []prodTemplate {
 		{"alias2-group-offset", []kit.Reg{{Outs: []kit.Out{{T: "D3"}}, As: []string{"IA"}, Group: "g"}, {Outs: []kit.Out{{T: "D2"}}, As: []string{"IA", "IB"}, Group: "g"}, {Outs: []kit.Out{{T: "D4"}}, As: []string{"IB"}, Group: "g"}}},
 		{"alias2-named", []kit.Reg{{Outs: []kit.Out{{T: "D2"}}, As: []string{"IA", "IB"}, Name: "k1"}, {Outs: []kit.Out{{T: "D3"}}, As: []string{"IA"}}}},
 		{"instance", []kit.Reg{{Kind: "instance", Outs: []kit.Out{{T: "P0"}}}}},
+		// an instance VALUE behind one / two interface aliases (also keyed and grouped)
+		{"instance-alias", []kit.Reg{{Kind: "instance", Outs: []kit.Out{{T: "D2"}}, As: []string{"IA"}}}},
+		{"instance-alias2", []kit.Reg{{Kind: "instance", Outs: []kit.Out{{T: "D2"}}, As: []string{"IA", "IB"}}}},
+		{"instance-alias2-named", []kit.Reg{{Kind: "instance", Outs: []kit.Out{{T: "D2"}}, As: []string{"IA", "IB"}, Name: "k1"}}},
+		{"instance-alias2-group", []kit.Reg{{Kind: "instance", Outs: []kit.Out{{T: "D3"}}, As: []string{"IA"}, Group: "g"}, {Kind: "instance", Outs: []kit.Out{{T: "D2"}}, As: []string{"IA", "IB"}, Group: "g"}}},
 		{"instance-named", []kit.Reg{{Kind: "instance", Outs: []kit.Out{{T: "P1"}}, Name: "k1"}}},
 		{"instance2-named", []kit.Reg{{Kind: "instance", Outs: []kit.Out{{T: "P1"}}, Name: "k1"}, {Kind: "instance", Outs: []kit.Out{{T: "P1"}}, Name: "k2"}, {Kind: "instance", Outs: []kit.Out{{T: "P1"}}}}},
 		{"instance2-group", []kit.Reg{{Kind: "instance", Outs: []kit.Out{{T: "D0"}}, Group: "g"}, {Kind: "instance", Outs: []kit.Out{{T: "D0"}}, Group: "g"}, {Kind: "instance", Outs: []kit.Out{{T: "D0"}}, Group: "h"}}},
